@@ -291,14 +291,14 @@ pub fn main(ctx: &Ctx) -> i32 {
                     for _ in 0..3 {
                         let mut w2 = spawn_worker();
                         let t0 = Instant::now();
-                        if let Out::Timeout = ask(&mut w2, &input, Duration::from_secs(60)) {
+                        if let Out::Timeout = ask(&mut w2, &input, Duration::from_secs(30)) {
                             slow += 1;
                         }
                         let _ = (t0, w2.child.kill(), w2.child.wait());
                     }
                     if slow == 3 && input.len() <= 65_536 {
                         ctx.case(Some(h));
-                        ctx.violation("c12:does-not-terminate", json!({"engine": "c12", "class": class, "input": truncate(&input, 2000), "input_hex": hex(input.as_bytes()), "message": "no result within 60 s in three isolated runs"}));
+                        ctx.violation("c12:does-not-terminate", json!({"engine": "c12", "class": class, "input": truncate(&input, 2000), "input_hex": hex(input.as_bytes()), "message": "no result within 30 s in three isolated runs (fresh process each)"}));
                     } else {
                         ctx.case(None);
                         ctx.inconclusive(json!({"class": class, "why": "10 s watchdog expired once", "slow_reruns": slow, "len": input.len()}));
@@ -312,7 +312,7 @@ pub fn main(ctx: &Ctx) -> i32 {
             let step = ctx.tier.pick(7, 1);
             let mut p = w * step;
             while p <= cs.len() {
-                if (p / step) % nw == w {
+                if (p / step) % nw == w && ctx.violations() < 3 {
                     run(cs[..p].iter().collect(), "prefix-exhaustive", &mut rng, &mut wk);
                     inputs_done += 1;
                 }
@@ -322,6 +322,10 @@ pub fn main(ctx: &Ctx) -> i32 {
         }
         let per = n / nw;
         for k in 0..per.saturating_sub(inputs_done) {
+            // a broken tree can make every other input sit through its watchdogs
+            if ctx.violations() >= 3 {
+                break;
+            }
             let (input, class) = gen_input(&mut rng, &corpus, k);
             if input.len() > 65_536 {
                 continue;
